@@ -63,6 +63,7 @@ class DocEngine:
         self.n_reopen = 0
         self.n_edits = 0
         self.n_faults = 0
+        self.shadow = None  # the original left behind by clone_swap
         self.twin = None  # C10: (DocSUT) the other twin
         self.twin_snap = None
 
@@ -118,8 +119,8 @@ class DocEngine:
         weights = [("touch", 10 * cfg["p_touch"]), ("edit", 4), ("set_part", 2 if self.prop in ("C03", "C10") else 0), ("del_part", 1.5),
                    ("add_file", 2.5), ("save", 12 * cfg["p_save"] if self.n_saves < cfg["max_saves"] else 0),
                    ("reopen", (6 * cfg["p_reopen"]) if self._reopenable() else 0)]
-        if self.prop == "C04":
-            weights += [("clone_swap", 1), ("merge_styles", 1)]
+        if self.prop in ("C04", "C03"):
+            weights += [("clone_swap", 1), ("merge_styles", 1 if self.prop == "C04" else 0), ("save_other", 2 if self.shadow else 0)]
         name = rng.weighted(weights, "op")
         op = {"op": name}
         dt = self._dt(rng)
@@ -132,6 +133,10 @@ class DocEngine:
         elif name == "edit":
             op["kind"] = rng.choice(["para", "heading", "list", "table", "image", "meta_title", "meta_user", "meta_keyword", "style", "delete_last"], "ekind")
             op["n"] = n
+            subs = sorted(x for x in st.names() if "/" in x and x.rsplit("/", 1)[-1] in ("content.xml", "styles.xml") and not x.startswith("META-INF"))
+            if subs and rng.chance(0.5, "subobj?"):
+                op["kind"] = "subobject"
+                op["name"] = rng.choice(subs, "subname")
         elif name == "set_part":
             kind = rng.weighted([("xml", 5), ("bin_existing", 2), ("new", 2)], "spkind")
             op["kind"] = kind
@@ -139,7 +144,7 @@ class DocEngine:
             if kind == "xml":
                 op["name"] = rng.choice(["content.xml", "styles.xml", "meta.xml", "settings.xml"], "spname")
             elif kind == "bin_existing":
-                cands = sorted(x for x in st.names() if x not in ds.STD_XML and x != "mimetype" and not x.endswith("/") and x != ds.RDF)
+                cands = sorted(x for x in st.names() if not ds.is_xml_part(x) and x != "mimetype" and not x.endswith("/") and x != ds.RDF)
                 if not cands:
                     op["kind"] = "new"
                     op["name"] = f"Extra/blob{n}.bin"
@@ -173,7 +178,7 @@ class DocEngine:
         elif name == "clone_swap":
             pass
         elif name == "merge_styles":
-            op["src"] = "sample:" + rng.choice(["lpod_styles.odt", "span_style.odt", "md_style.odt", "example.odt"], "msrc")
+            op["src"] = "sample:" + rng.choice(["lpod_styles.odt", "span_style.odt", "md_style.odt", "example.odt", "background.odp", "example.odp", "frame_image.odp"], "msrc")
         return op
 
     def _reopenable(self):
@@ -322,6 +327,11 @@ class DocEngine:
                 else:
                     body.append(DrawPage(f"page{n}", name=f"Page {n}"))
                 return "content.xml"
+            if kind == "subobject":
+                part = doc.get_part(op["name"])
+                part.root.set_attribute("office:version", "1.%d" % (2 + n % 2))
+                part.root.append(__import__("odfdo").Element.from_tag("<office:scripts/>")) if n % 3 == 0 else None
+                return op["name"]
             if kind == "meta_title":
                 doc.meta.title = f"Title {n}"
                 return "meta.xml"
@@ -342,6 +352,18 @@ class DocEngine:
             self.stats.probe("edit_raised")
             return []
         self.n_edits += 1
+        # the edit made through the API must be in the part a reader will get
+        marker = {"para": f"paragraph {n}  with", "heading": f"Heading {n}", "list": f"item {n}b", "meta_title": f"Title {n}", "meta_keyword": f"kw{n}"}.get(kind)
+        if marker and dtype == "text" or (marker and kind.startswith("meta")):
+            part = "meta" if kind.startswith("meta") else "content"
+            try:
+                data = doc.get_part(part).serialize()
+            except Exception:
+                data = b""
+            probe = marker.replace("  ", " ").split(" with")[0].encode()
+            if probe not in data and self.prop == "C03":
+                return [Violation("C03", "edit-not-in-part", "edit", self._feats() + ["kind:" + kind], None,
+                                  f"the {kind} just added through the API is not in the {part} part (edit went to a stale tree)")]
         if res == "content.xml+image":
             self._model_add_file_result("Pictures/", IMG1, None)
             st.touched.add("content.xml")
@@ -456,10 +478,40 @@ class DocEngine:
                 new.base[n] = res.container.get_part(n)
             except Exception:
                 pass
+        # the original stays alive, untouched from now on: it must still save what it held
+        try:
+            self.shadow = {"doc": doc, "expected": self._expected_for_save(), "mimetype": st.mimetype, "flags": set(self.flags) | {"cloned"}}
+        except Exception:
+            self.shadow = None
         self.sut.doc = res
         self.sut.store = new
         self.sut.src = {"kind": "clone", "path": None, "packaging": "zip"}
         self.flags.add("cloned")
+        return []
+
+    def _op_save_other(self, op):
+        """save the document that was left behind at the last clone (no op touched it since)"""
+        sh = self.shadow
+        if not sh:
+            return []
+        buf = io.BytesIO()
+        res, exc = self._call(lambda: sh["doc"].save(buf), "save_other")
+        self._outcome = f"save_other:{'exc' if exc else 'ok'}"
+        feats = sorted(sh["flags"]) + ["other_twin"]
+        if exc is not None:
+            return [Violation(self.prop, "save-raises", "save_other", feats, type(exc).__name__, str(exc))]
+        self.stats.probe("saved_untouched_original_after_clone")
+        pkg = xmlref.read_package(buf.getvalue())
+        if self.prop == "C04":
+            for rule, det in ds.inspect_odf_zip(pkg, sh["mimetype"]):
+                if (rule, det) in self.baseline_c04:
+                    continue
+                return [Violation("C04", rule, "save_other", feats, None, det)]
+        else:
+            exp = {k: v for k, v in sh["expected"].items() if v is not None}
+            optional = {k for k, v in sh["expected"].items() if v is None}
+            for kind, det in ds.compare_package(pkg, exp, optional):
+                return [Violation(self.prop, kind, "save_other", feats, None, det)]
         return []
 
     def _op_merge_styles(self, op):
@@ -599,6 +651,8 @@ class DocEngine:
             if fired:
                 # fail-stop: may fail, never silently wrong. Nothing is asserted on the torn target.
                 self.stats.probe("fault_survived_by_raise")
+                if op["target"] == "inplace" or (tkind != "bytesio" and self.sut.src["path"] and self._resolved(given, pk) == self.sut.src["path"]):
+                    self.flags.add("source_torn_by_failed_save")
                 vs += self._oracle_after_failed_save(op, expected, feats)
                 st.touched |= post_touched
                 return vs
@@ -687,7 +741,7 @@ class DocEngine:
                 if n in ds.STD_XML:
                     data = d2.get_part(n).serialize()
                 else:
-                    data = d2.container.get_part(n)  # raw bytes (sub-document XML parts included)
+                    data = d2.container.get_part(n)  # raw bytes (sub-document XML parts: compared as XML by canon)
                 if ds.canon(n, data) != want:
                     return [Violation("C03", "reopened-part-differs", "save", feats + ["part:" + n], None, f"{n} read back through odfdo differs from memory at save time")]
         except Exception as e:
